@@ -101,6 +101,10 @@ enum Dec {
 }
 
 pub struct Prog<'a> {
+    /// set before a call that the property says MUST fail (undersized target, truncated skippable frame, trailing garbage): a success is then an oracle failure
+    pub must_fail: Option<String>,
+    /// `reset`/`init` succeeded on the current source (the decoder state describes THIS frame, not an earlier one)
+    pub began: bool,
     pub run: &'a mut Run,
     dec: Dec,
     pub delivered: Vec<u8>,
@@ -112,7 +116,9 @@ pub struct Prog<'a> {
 
 impl<'a> Prog<'a> {
     pub fn new(run: &'a mut Run, label: &str) -> Self {
-        let mut p = Prog { run, dec: Dec::Plain(FrameDecoder::new(), FragReader::new(vec![], vec![])), delivered: vec![], truth: None, lines: vec![], failed: false, label: label.to_string() };
+        let mut p = Prog {
+            must_fail: None,
+            began: false, run, dec: Dec::Plain(FrameDecoder::new(), FragReader::new(vec![], vec![])), delivered: vec![], truth: None, lines: vec![], failed: false, label: label.to_string() };
         p.emit("dec new".into(), "ok".into());
         p
     }
@@ -189,6 +195,7 @@ impl<'a> Prog<'a> {
         self.truth = truth;
         self.delivered.clear();
         self.failed = false;
+        self.began = false;
         self.emit(line, "ok".into());
     }
     /// `reset`/`init` on the plain decoder
@@ -205,6 +212,7 @@ impl<'a> Prog<'a> {
             }
         };
         self.failed = !ok;
+        self.began = ok;
         self.emit("dec reset".into(), s);
         ok
     }
@@ -224,6 +232,7 @@ impl<'a> Prog<'a> {
             Ok(s) => {
                 self.dec = Dec::Streaming(s);
                 self.failed = false;
+                self.began = true;
                 self.emit("dec reset".into(), "ok".into());
                 true
             }
@@ -293,8 +302,10 @@ impl<'a> Prog<'a> {
         let expect_ck = (xxh64(&t.original, 0) & 0xffff_ffff) as u32;
         let dck = (xxh64(&self.delivered, 0) & 0xffff_ffff) as u32;
         self.run.oracle_checks += 1;
-        if !complete && fin && !failed {
-            self.oracle_fail("C10", "prefix_finished", format!("a strict prefix ({} bytes of source) ended in a finished state", flen));
+        // "never in a finished state": also not after the error (once `reset` succeeded on this source, the decoder's
+        // state describes this frame; before that it may still describe an earlier one)
+        if !complete && fin && (!failed || self.began) {
+            self.oracle_fail("C10", "prefix_finished", format!("a strict prefix ({} bytes of source) ended in a finished state{}", flen, if failed { " (after reporting an error)" } else { "" }));
         }
         if fin && can == 0 && !failed && complete {
             if dl != olen {
@@ -447,6 +458,9 @@ impl<'a> Prog<'a> {
         let s = match res {
             Ok(Ok(k)) => {
                 self.run.oracle_checks += 1;
+                if let Some(why) = self.must_fail.take() {
+                    self.oracle_fail("C10", "decode_all_silent_success", format!("decode_all returned Ok({}) on {} (must be an error, never a silent truncation)", k, why));
+                }
                 if let Some(e) = expect {
                     if k != e.len() || out[..k.min(room)] != e[..] {
                         self.oracle_fail("C10", "decode_all_wrong", format!("decode_all returned {} bytes, expected the concatenated contents ({} bytes)", k, e.len()));
@@ -470,6 +484,7 @@ impl<'a> Prog<'a> {
         if out[room..].iter().any(|&b| b != 0x33) {
             self.oracle_fail("C10", "decode_all_oob", "decode_all wrote past the end of the target slice".into());
         }
+        self.must_fail = None;
         self.emit(format!("dec all {} {}", hex(input), room), s);
     }
     /// `decode_all_to_vec` into a vector that already holds `prefix` and has `room` spare capacity; the
@@ -483,6 +498,9 @@ impl<'a> Prog<'a> {
         self.run.oracle_checks += 1;
         let s = match res {
             Ok(Ok(())) => {
+                if let Some(why) = self.must_fail.take() {
+                    self.oracle_fail("C10", "decode_all_silent_success", format!("decode_all_to_vec returned Ok on {} (must be an error, never a silent truncation)", why));
+                }
                 if out.len() < prefix.len() || out[..prefix.len()] != prefix[..] {
                     self.oracle_fail("C10", "vec_prefix_clobbered", "decode_all_to_vec changed the bytes already in the vector".into());
                 }
@@ -510,6 +528,7 @@ impl<'a> Prog<'a> {
                 "fault".into()
             }
         };
+        self.must_fail = None;
         self.emit(format!("dec all {} {}", hex(input), room), s);
     }
     pub fn finished(&mut self) -> bool {
@@ -543,7 +562,14 @@ fn drain_op(p: &mut Prog, rng: &mut Rng) {
         }
         _ => {
             let chunk = *rng.pick(&[1usize, 3, 64, 4096, 1 << 20]);
-            let budget = *rng.pick(&[0usize, 1, 5, 100, 5000, 100000, usize::MAX >> 8]);
+            // budgets relative to what is collectable, so that the sink stops (or fails) anywhere in the first OR the
+            // second ring segment, not only near the front
+            let can = p.can();
+            let budget = match rng.below(3) {
+                0 => *rng.pick(&[0usize, 1, 5, 100, 5000, 100000, usize::MAX >> 8]),
+                1 => (can / 8) * rng.below(9) as usize + rng.below(3) as usize,
+                _ => can.saturating_sub(rng.below(can.min(4096) as u64 + 1) as usize),
+            };
             p.to_writer(chunk, budget, rng.chance(1, 2))
         }
     }
@@ -735,8 +761,21 @@ pub fn run(opts: &Opts) -> Run {
         for cut in cuts {
             let pre = c.frame[..cut].to_vec();
             let mut p = Prog::new(&mut run, &format!("{} cut@{}", c.label, cut));
+            // half of the truncated frames go to a decoder that has just decoded the COMPLETE frame (a checksum, a
+            // finished flag or a block counter left over from it must not make the prefix look finished)
+            let reused = rng.chance(1, 2);
+            if reused {
+                p.set_src(c.frame.clone(), vec![], truth(true, c.frame.len()));
+                if p.reset() {
+                    p.blocks("all");
+                    p.collect();
+                }
+                p.run.stat("truncations_on_reused_decoder", 1);
+            }
             p.set_src(pre.clone(), vec![], truth(false, cut));
-            match rng.below(3) {
+            // (`decode_from_to` starts a frame by itself only on a decoder that was never used: the reused decoder goes
+            // through the two drivers that begin with `reset` / `StreamingDecoder::new_with_decoder`)
+            match rng.below(if reused { 2 } else { 3 }) {
                 0 => drive_blocks(&mut p, &mut rng, c.window),
                 1 => drive_streaming(&mut p, &mut rng),
                 _ => {
@@ -745,6 +784,40 @@ pub fn run(opts: &Opts) -> Run {
                 }
             }
             p.run.stat("truncations", 1);
+        }
+        // (d2) a frame several times larger than its window, drained mid-frame through sinks that stop or fail anywhere
+        // in what is collectable (the ring is wrapped most of the time: both segments are exercised), then retried
+        if i % 4 == 1 {
+            let len = 200_000 + rng.below(300_000) as usize;
+            let kind = *rng.pick(&["text", "mixed", "random", "lowalpha"]);
+            let data = gen::data(&mut rng, kind, len);
+            let wlog = 10 + rng.below(4) as u32;
+            let zp = gen::ZParams { level: 1, window_log: Some(wlog), ldm: false, checksum: true, content_size: false, flush_every: None, min_match: None, strategy_btultra: false };
+            let frame = gen::zstd_frame(&data, &zp, None);
+            let mut p = Prog::new(&mut run, &format!("flaky sinks, {} B of {} at wlog {}", len, kind, wlog));
+            p.set_src(frame.clone(), vec![], Some(Truth { original: data.clone(), frame_len: frame.len(), complete: true, has_checksum: true }));
+            if p.reset() {
+                let mut ops = 0;
+                while !p.finished() && !p.is_failed() && ops < 600 {
+                    p.blocks(if rng.chance(1, 2) { "blocks:1" } else { "bytes:70000" });
+                    let can = p.can();
+                    if can > 0 {
+                        let budget = rng.below(can as u64 + 1) as usize;
+                        let chunk = *rng.pick(&[1usize, 100, 4096, 1 << 20]);
+                        p.to_writer(chunk, budget, true);
+                        if rng.chance(2, 3) {
+                            p.to_writer(chunk, usize::MAX >> 8, false);
+                        }
+                    }
+                    ops += 1;
+                }
+                let mut guard = 0;
+                while p.can() > 0 && guard < 50 {
+                    p.to_writer(4096, usize::MAX >> 8, false);
+                    guard += 1;
+                }
+            }
+            p.run.stat("flaky_sink_programs", 1);
         }
         // (e) multi-frame: concatenation with skippable frames, exact / undersized targets, garbage
         if i % 3 == 0 {
@@ -762,16 +835,27 @@ pub fn run(opts: &Opts) -> Run {
             p.decode_all(&input, expect.len(), Some(&expect));
             p.decode_all(&input, expect.len() + 100, Some(&expect));
             if !expect.is_empty() {
+                p.must_fail = Some("a target one byte too small".into());
                 p.decode_all(&input, expect.len() - 1, None);
+                p.must_fail = Some("a target half the size of the content".into());
                 p.decode_all(&input, expect.len() / 2, None);
             }
             let mut garbage = input.clone();
             garbage.extend_from_slice(&[1, 2, 3]);
+            p.must_fail = Some("valid frames followed by 3 bytes of garbage".into());
             p.decode_all(&garbage, expect.len() + 10, None);
+            // 1, 2, 4, 5 … trailing bytes, also ones that look like the start of a magic number
+            for g in [vec![0x28u8], vec![0x28, 0xb5], vec![0x50, 0x2a, 0x4d], vec![0x28, 0xb5, 0x2f, 0xfd], rng.bytes(5), vec![0]] {
+                let mut gi = input.clone();
+                gi.extend_from_slice(&g);
+                p.must_fail = Some(format!("valid frames followed by {} trailing byte(s) {}", g.len(), hex(&g)));
+                p.decode_all(&gi, expect.len() + 10, None);
+            }
             let mut trunc_skip = c.frame.clone();
             trunc_skip.extend_from_slice(&0x184D2A50u32.to_le_bytes());
             trunc_skip.extend_from_slice(&1000u32.to_le_bytes());
             trunc_skip.extend_from_slice(&[0; 10]);
+            p.must_fail = Some("a frame followed by a truncated skippable frame".into());
             p.decode_all(&trunc_skip, c.original.len() + 10, None);
             // the Vec front end: spare capacity exact / too small / with existing content
             p.decode_all_to_vec(&input, b"prefix", expect.len() + 64, Some(&expect));
@@ -779,6 +863,7 @@ pub fn run(opts: &Opts) -> Run {
             if expect.len() > 70 {
                 p.decode_all_to_vec(&input, b"keep me", expect.len() - 70, None);
             }
+            p.must_fail = Some("valid frames followed by 3 bytes of garbage".into());
             p.decode_all_to_vec(&garbage, b"xy", expect.len() + 64, None);
             p.run.stat("multi_frame_programs", 1);
         }
